@@ -17,6 +17,9 @@ type VClock struct {
 	mu     sync.Mutex
 	now    time.Time
 	OnTick func(to time.Time)
+	// OnNow, if set, is called (outside the lock) on every Now(): a driver can use a clock read that the code under
+	// test performs between two in-memory steps as a scheduling point (no hook in /repo needed).
+	OnNow func()
 }
 
 var _ clock.Clock = (*VClock)(nil)
@@ -25,9 +28,18 @@ func NewClock() *VClock { return &VClock{now: Epoch} }
 
 func (c *VClock) Now() time.Time {
 	c.mu.Lock()
+	f := c.OnNow
+	c.mu.Unlock()
+	if f != nil {
+		f()
+	}
+	c.mu.Lock()
 	defer c.mu.Unlock()
 	return c.now
 }
+
+// SetOnNow installs or removes (nil) the Now() callback.
+func (c *VClock) SetOnNow(f func()) { c.mu.Lock(); c.OnNow = f; c.mu.Unlock() }
 func (c *VClock) Since(t time.Time) time.Duration { return c.Now().Sub(t) }
 func (c *VClock) Step(d time.Duration) {
 	if d <= 0 {
